@@ -416,7 +416,8 @@ def replay_table(b, rng, serial):
         d = core.disassembler([m], endian=(lambda: e))
         if d.maxlen != b["maxlen"]:
             fails.append(("maxlen", "maxlen %r, model %r" % (d.maxlen, b["maxlen"])))
-        d.maxlen = b["callmaxlen"]
+        if b["callmaxlen"] != d.maxlen:
+            d.maxlen = b["callmaxlen"]      # raised after construction, as cpu_x86 / cpu_msp430 / dwarf do
         if (d.specs[0][0] == 0) != b["leaf"] or real_leaves(d.specs[0]) != b["nleaves"]:
             drifts.append("tree shape differs from the model's Build (root leaf / number of leaves)")
         U = b["U"]
